@@ -368,3 +368,162 @@ pub open spec fn stream_result<T>(ir: Poll<Result<T, ReceiveError>>) -> Poll<Opt
         Poll::Ready(Err(_)) => Poll::Ready(None),
     }
 }
+
+// ================================================================== lemmas over the reference channel
+// (DESIGN.md §3.5 "lemmas over the contracts"): pure proofs about the ref_* functions.  Every entry point
+// is proved to perform exactly these steps on alpha(state), so what is shown here for one step holds for
+// every critical section of every execution (R1).
+
+/// the lock invariant, seen through the abstraction
+pub open spec fn awf<T>(a: A<T>) -> bool {
+    &&& a.q.len() <= a.cap
+    &&& (a.s.len() > 0 ==> a.q.len() == a.cap)
+    &&& (a.r.len() > 0 ==> a.q.len() == 0)
+    &&& !(a.s.len() > 0 && a.r.len() > 0)
+    &&& ((a.rc == 0 || a.sc == 0) ==> a.s.len() == 0 && a.r.len() == 0)
+}
+pub proof fn lemma_wf_abstract<T>(c: ChannelInternal<T>)
+    requires wf(c),
+    ensures awf(alpha(c)),
+{}
+
+/// L-WF: every non-registering step preserves the invariant; registration preserves it when the
+/// registering side is alive (R5 for senders; checked in the code for receivers)
+pub proof fn lemma_L_WF<T>(a: A<T>, d: T, t: SignalTerminator<T>)
+    requires awf(a),
+    ensures
+        awf(ref_send_post(a, d)),
+        awf(ref_recv_post(a)),
+        awf(ref_close_post(a)),
+        awf(ref_clone_sender(a)), awf(ref_clone_receiver(a)),
+        awf(ref_drop_sender(a)), awf(ref_drop_receiver(a)),
+        ref_send_class(a) is Full && a.sc != 0 ==> awf(ref_send_register(a, t)),
+        ref_recv_class(a) is Empty ==> awf(ref_recv_register(a, t)),
+{}
+
+/// L-FIFO (C02): a send-type step appends at the tail of the logical order (or hands to the oldest waiting
+/// receiver, which happens only when the logical order is empty); a receive-type step removes its head.
+pub proof fn lemma_L_FIFO<T>(a: A<T>, d: T, t: SignalTerminator<T>)
+    requires awf(a),
+    ensures
+        ref_send_class(a) is Buffered ==> logical(ref_send_post(a, d)) =~= logical(a).push(d),
+        ref_send_class(a) is Handoff ==> logical(a).len() == 0 && logical(ref_send_post(a, d)).len() == 0
+            && ref_send_handoff(a, d) =~= seq![(a.r[0], d)],
+        ref_send_class(a) is Full && payload(t) == d ==> logical(ref_send_register(a, t)) =~= logical(a).push(d),
+        (ref_recv_value(a) matches Some(v) ==> logical(a).len() > 0 && v == logical(a)[0]
+            && logical(ref_recv_post(a)) =~= logical(a).skip(1)),
+        ref_recv_value(a) is None ==> logical(ref_recv_post(a)) =~= logical(a),
+        // a value is available exactly when the logical order is non-empty (and the receive side is open)
+        a.rc != 0 ==> (ref_recv_value(a) is Some <==> logical(a).len() > 0),
+{
+    let m = |t: SignalTerminator<T>| payload(t);
+    if ref_send_class(a) is Full && payload(t) == d {
+        assert(a.s.push(t).map_values(m) =~= a.s.map_values(m).push(d));
+        assert(logical(ref_send_register(a, t)) =~= logical(a).push(d));
+    }
+    if ref_send_class(a) is Buffered {
+        assert(a.s.len() == 0);
+    }
+    match ref_recv_class(a) {
+        RecvClass::BufferRefill => {
+            assert(a.s.skip(1).map_values(m) =~= a.s.map_values(m).skip(1));
+            assert(logical(ref_recv_post(a)) =~= logical(a).skip(1));
+        }
+        RecvClass::Buffer => {
+            assert(logical(ref_recv_post(a)) =~= logical(a).skip(1));
+        }
+        RecvClass::Direct => {
+            assert(a.s.skip(1).map_values(m) =~= a.s.map_values(m).skip(1));
+            assert(logical(ref_recv_post(a)) =~= logical(a).skip(1));
+        }
+        _ => {}
+    }
+}
+
+/// L-CONS (C01): one step changes the multiset of values inside the channel by exactly the value accepted
+/// (send-type success into buffer / registration) or exactly the value handed out (receive-type); a hand-off
+/// passes the value through without storing it; failure leaves it unchanged.
+pub proof fn lemma_L_CONS<T>(a: A<T>, d: T, t: SignalTerminator<T>)
+    requires awf(a),
+    ensures
+        ref_send_class(a) is Buffered ==> logical(ref_send_post(a, d)).to_multiset() =~= logical(a).to_multiset().insert(d),
+        (ref_send_class(a) is Closed || ref_send_class(a) is ReceiveClosed || ref_send_class(a) is Full || ref_send_class(a) is Handoff)
+            ==> logical(ref_send_post(a, d)) =~= logical(a),
+        (ref_recv_value(a) matches Some(v) ==> logical(a).to_multiset() =~= logical(ref_recv_post(a)).to_multiset().insert(v)),
+        !closed(a) ==> logical(ref_close_post(a)).len() == 0,
+{
+    lemma_L_FIFO(a, d, t);
+    broadcast use vstd::seq_lib::group_to_multiset_ensures;
+    if ref_send_class(a) is Buffered {
+        assert(logical(ref_send_post(a, d)) =~= logical(a).push(d));
+    }
+    if let Some(v) = ref_recv_value(a) {
+        let l = logical(a);
+        assert(l =~= seq![v] + l.skip(1));
+        vstd::seq_lib::lemma_multiset_commutative(seq![v], l.skip(1));
+        assert(seq![v].to_multiset() =~= Multiset::empty().insert(v)) by {
+            assert(seq![v] =~= Seq::<T>::empty().push(v));
+        }
+        assert(logical(ref_recv_post(a)) =~= l.skip(1));
+    }
+}
+
+/// L-CAP (C08): the buffer never exceeds the capacity, a send is refused exactly when the buffer is full and
+/// no receiver waits, an unbounded channel never refuses, a rendezvous channel never buffers.
+pub proof fn lemma_L_CAP<T>(a: A<T>, d: T)
+    requires awf(a),
+    ensures
+        ref_send_post(a, d).q.len() <= a.cap,
+        a.rc != 0 ==> (ref_send_class(a) is Full <==> (a.q.len() == a.cap && a.r.len() == 0)),
+        a.cap == usize::MAX as int && a.q.len() < usize::MAX as int ==> !(ref_send_class(a) is Full),
+        a.cap == 0 ==> !(ref_send_class(a) is Buffered),
+        // per step, #successful non-blocking sends - #values taken changes exactly like the buffer length
+        ref_send_class(a) is Buffered ==> ref_send_post(a, d).q.len() == a.q.len() + 1,
+        ref_recv_class(a) is Buffer ==> ref_recv_post(a).q.len() == a.q.len() - 1,
+        ref_recv_class(a) is BufferRefill ==> ref_recv_post(a).q.len() == a.q.len(),
+{}
+
+/// L-CLOSED (C10): closed is absorbing -- no step leaves the closed state or changes anything in it.
+pub proof fn lemma_L_CLOSED<T>(a: A<T>, d: T)
+    requires closed(a), awf(a),
+    ensures
+        aeq(ref_send_post(a, d), a), ref_send_class(a) is Closed,
+        aeq(ref_recv_post(a), a), ref_recv_class(a) is Closed,
+        aeq(ref_close_post(a), a),
+        aeq(ref_clone_sender(a), a), aeq(ref_clone_receiver(a), a),
+        aeq(ref_drop_sender(a), a), aeq(ref_drop_receiver(a), a),
+        closed(ref_close_post(a)),
+{}
+
+/// L-DISC (C11): the send side is reported dead only when the count is 0; receivers get SendClosed only
+/// after the logical content is exhausted; dropping a handle terminates waiters exactly on the 1 -> 0
+/// transition while the other side lives.
+pub proof fn lemma_L_DISC<T>(a: A<T>)
+    requires awf(a),
+    ensures
+        ref_recv_class(a) is SendClosed ==> a.sc == 0 && logical(a).len() == 0,
+        ref_send_class(a) is ReceiveClosed ==> a.rc == 0 && a.sc != 0,
+        a.sc > 1 ==> ref_drop_sender_terminated(a).len() == 0 && ref_drop_sender(a).sc == a.sc - 1,
+        a.rc > 1 ==> ref_drop_receiver_terminated(a).len() == 0 && ref_drop_receiver(a).rc == a.rc - 1,
+        a.sc == 1 && a.rc != 0 ==> ref_drop_sender_terminated(a) =~= a.s + a.r && ref_drop_sender(a).s.len() == 0 && ref_drop_sender(a).r.len() == 0,
+        a.rc == 1 && a.sc != 0 ==> ref_drop_receiver_terminated(a) =~= a.s + a.r && ref_drop_receiver(a).s.len() == 0 && ref_drop_receiver(a).r.len() == 0,
+{}
+
+/// L-COUNT (C12): a ledger of live handles stays equal to the counts under every handle step of an open
+/// channel, and a closed channel stays at 0/0.
+pub ghost struct Ledger { pub senders: int, pub receivers: int }
+pub open spec fn ledger_ok<T>(a: A<T>, l: Ledger) -> bool {
+    if closed(a) { true } else { a.sc == l.senders && a.rc == l.receivers }
+}
+pub proof fn lemma_L_COUNT<T>(a: A<T>, l: Ledger)
+    requires ledger_ok(a, l), l.senders >= 0, l.receivers >= 0, !closed(a),
+    ensures
+        // clone: one more live handle
+        ledger_ok(ref_clone_sender(a), Ledger { senders: l.senders + 1, ..l }) || a.sc == 0,
+        ledger_ok(ref_clone_receiver(a), Ledger { receivers: l.receivers + 1, ..l }) || a.rc == 0,
+        // drop of a live handle: one fewer
+        l.senders >= 1 ==> ledger_ok(ref_drop_sender(a), Ledger { senders: l.senders - 1, ..l }),
+        l.receivers >= 1 ==> ledger_ok(ref_drop_receiver(a), Ledger { receivers: l.receivers - 1, ..l }),
+        // close: both read zero afterwards, for ever (L-CLOSED)
+        ref_close_post(a).sc == 0 && ref_close_post(a).rc == 0,
+{}
